@@ -69,9 +69,14 @@ def _drive(sd, texts, cases):
     tin = vf.write_ndjson(os.path.join(sd, "texts.ndjson"), texts)
     cin = vf.write_ndjson(os.path.join(sd, "cases.ndjson"), cases)
     ioa, iob = os.path.join(sd, "ioA.ndjson"), os.path.join(sd, "ioB.ndjson")
-    ov = vf.make_overlay(sd, HARNESS)
-    p = vf.go_test(ov, "./internal/util/", "^TestVerifC19(Minify|Write)$",
-                   env={"VERIF_IN": tin, "VERIF_OUT": ioa, "VERIF_CASES": cin, "VERIF_OUT_B": iob}, timeout=600)
+    for attempt in (1, 2):
+        ov = vf.make_overlay(sd, HARNESS)
+        p = vf.go_test(ov, "./internal/util/", "^TestVerifC19(Minify|Write)$",
+                       env={"VERIF_IN": tin, "VERIF_OUT": ioa, "VERIF_CASES": cin, "VERIF_OUT_B": iob}, timeout=600)
+        # the generated-file cache is shared with concurrently running checks, which may prune an entry between
+        # make_overlay and the compiler opening it: regenerate once
+        if not (p.returncode != 0 and "verif-cache" in p.stdout + p.stderr and "no such file" in p.stdout + p.stderr):
+            break
     if p.returncode != 0 or not os.path.exists(ioa) or not os.path.exists(iob):
         raise vf.NoVerdict("driver failed (rc=%d)\n%s\n%s" % (p.returncode, p.stdout[-3000:], p.stderr[-3000:]))
     la, lb = vf.read_ndjson(ioa), vf.read_ndjson(iob)
@@ -85,7 +90,8 @@ def _drive(sd, texts, cases):
 def _judge(chk, sd, la, lb, cases, cin, label=True):
     """Both contracts (in parallel), with the self-test records appended to each log.
     Returns violations found among the real records; raises NoVerdict if a self-test record is misjudged."""
-    good = next((r for r in lb if r["kind"] == "gzip" and r["hdr"] == "gzip"), None) or (lb[0] if lb else None)
+    good = (next((r for r in lb if r["kind"] == "gzip" and r["hdr"] == "gzip" and r["text"]), None)
+            or next((r for r in lb if r["text"]), None))
     self_b = []
     if good is not None:
         m1 = dict(good)                                   # header flipped: client no longer decodes the way the bytes need
@@ -249,10 +255,10 @@ def run():
         nplain_big = sum(1 for r in lb if r["kind"] == "plain" and r["wire"] >= 4096)
         noffer_plain = sum(1 for r, c in zip(lb, cases)
                            if r["kind"] == "plain" and c["ae"] == "gzip" and c["thr"] == 16 and r["wire"] >= 16)
-        if not ngz or not nplain_big or not noffer_plain:
+        good = _judge(chk, sd, la, lb, cases, cin)
+        if not chk.cands and (not ngz or not nplain_big or not noffer_plain):
             raise vf.NoVerdict("level B did not exercise both sides of the compression decision (gzip=%d big-plain=%d incompressible=%d)"
                                % (ngz, nplain_big, noffer_plain))
-        good = _judge(chk, sd, la, lb, cases, cin)
 
         # evidence
         chk.cov["traces_validated_against_impl"] = len(la) + len(lb)
